@@ -78,12 +78,41 @@ def parseWT (s : String) : Option WT :=
   | some n => if n < 8 then some (WT.ofCode n) else none
   | none => none
 
-def parseCfg (s : String) : Option Cfg :=
+def parseFlags (s : String) : Option Cfg :=
   match s with
   | "00" => some { protoTime := false, protoArrays := false }
   | "01" => some { protoTime := false, protoArrays := true }
   | "10" => some { protoTime := true, protoArrays := false }
   | "11" => some { protoTime := true, protoArrays := true }
+  | _ => none
+
+/-- scalar codecs that can be named in a registration (marker codecs of C17). -/
+def parseScalarTy (s : String) : Option Ty :=
+  match s with
+  | "bool" => some .bool
+  | "int8" => some (.int 8) | "int16" => some (.int 16) | "int32" => some (.int 32) | "int64" => some (.int 64)
+  | "uint8" => some (.uint 8) | "uint16" => some (.uint 16) | "uint32" => some (.uint 32) | "uint64" => some (.uint 64)
+  | "flat8" => some (.flat 8) | "flat16" => some (.flat 16) | "flat32" => some (.flat 32) | "flat64" => some (.flat 64)
+  | "f32" => some .f32 | "f64" => some .f64
+  | "str" => some (.str false) | "istr" => some (.str true) | "bytes" => some .bytes
+  | "time" => some (.time false) | "timec" => some (.time true)
+  | _ => none
+
+/-- `00` | `(cfg 00 [null] (reg xNAME xTAG codec)…)` -/
+def parseCfg : Sexp → Option Cfg
+  | .atom a => parseFlags a
+  | .list (.atom "cfg" :: .atom fl :: rest) => do
+      let base ← parseFlags fl
+      let rec go (c : Cfg) : List Sexp → Option Cfg
+        | [] => some c
+        | .atom "null" :: r => go { c with nullCodecs := true } r
+        | .list [.atom "reg", .atom n, .atom t, .atom ty] :: r => do
+            let n ← parseHexStr n
+            let t ← parseHexStr t
+            let ty ← parseScalarTy ty
+            go { c with custom := c.custom ++ [(n, t, ty)] } r
+        | _ => none
+      go base rest
   | _ => none
 
 def parseBasic (s : String) : Option Basic :=
@@ -107,6 +136,7 @@ partial def parseTyDef : Sexp → Option TyDef
   | .list [.atom "map", k, v] => do
       let k ← parseTyDef k; let v ← parseTyDef v; pure (.map k v)
   | .list [.atom "bad", .atom k] => some (.bad k)
+  | .list [.atom "ext", .atom n] => (parseHexStr n).map .ext
   | .list (.atom "struct" :: .atom n :: fs) => do
       let n ← parseHexStr n
       let fs ← fs.mapM parseFieldDef
